@@ -1,5 +1,8 @@
 import ZorgVerif.Gen.Consts
+import ZorgVerif.Model.Basic
+import ZorgVerif.Model.Date
 import ZorgVerif.Model.Zid
+import ZorgVerif.Model.Groups
 import ZorgVerif.Lemmas.Zid
 import ZorgVerif.Lemmas.ZidAlloc
 import ZorgVerif.Props.C07
